@@ -64,7 +64,71 @@ def gen_controllers(repo):
     return "\n".join(out)
 
 
-UNITS = {"Gen_standardiser.v": gen_standardiser, "Gen_controllers.v": gen_controllers}
+def gen_guard(repo):
+    """the body of guard.exclusive.<locals>.make_exclusive.<locals>.exclusive_call as a `list gstmt`"""
+    with open(os.path.join(repo, "src", "cobald", "daemon", "runners", "guard.py")) as fh:
+        tree = ast.parse(fh.read())
+    target = None
+    for n in ast.walk(tree):
+        if isinstance(n, ast.FunctionDef) and n.name == "exclusive_call":
+            target = n
+    if target is None:
+        raise TranslationError("exclusive_call not found")
+
+    def is_call_on(e, obj, meth):
+        return (isinstance(e, ast.Call) and isinstance(e.func, ast.Attribute) and e.func.attr == meth
+                and isinstance(e.func.value, ast.Name) and e.func.value.id == obj)
+
+    def is_body_call(e):
+        return isinstance(e, ast.Call) and isinstance(e.func, ast.Name) and e.func.id == "fnc"
+
+    def block(stmts):
+        return "[" + "; ".join(stmt(x) for x in stmts) + "]"
+
+    def stmt(x):
+        if isinstance(x, ast.If) and isinstance(x.test, ast.UnaryOp) and isinstance(x.test.op, ast.Not):
+            inner = ast.If(test=x.test.operand, body=x.orelse, orelse=x.body)
+            return stmt(inner)
+        if isinstance(x, ast.If):
+            if is_call_on(x.test, "fnc_guard", "acquire"):
+                kw = {k.arg: getattr(k.value, "value", None) for k in x.test.keywords}
+                if x.test.args or kw != {"blocking": False}:
+                    raise TranslationError("acquire must be non-blocking")
+                return "GIfAcquire %s %s" % (block(x.body), block(x.orelse))
+            if is_call_on(x.test, "fnc_guard", "locked"):
+                return "GIfLocked %s %s" % (block(x.body), block(x.orelse))
+            raise TranslationError("unsupported test in exclusive_call")
+        if isinstance(x, ast.Try):
+            if x.handlers or x.orelse:
+                raise TranslationError("except/else clauses are not supported")
+            return "GTryFinally %s %s" % (block(x.body), block(x.finalbody))
+        if isinstance(x, ast.Return):
+            if x.value is None:
+                return "GReturnNone"
+            if is_body_call(x.value):
+                return "GReturnCall"
+            raise TranslationError("unsupported return value")
+        if isinstance(x, ast.Expr):
+            if is_call_on(x.value, "fnc_guard", "release"):
+                return "GRelease"
+            if is_body_call(x.value):
+                return "GCall"
+            if isinstance(x.value, ast.Constant) and isinstance(x.value.value, str):
+                return None
+            raise TranslationError("unsupported expression statement")
+        if isinstance(x, ast.Raise):
+            if isinstance(x.exc, ast.Call) and getattr(x.exc.func, "id", None) == "RuntimeError":
+                return "GRaiseRuntime"
+            raise TranslationError("unsupported raise")
+        raise TranslationError("unsupported statement %s in exclusive_call" % type(x).__name__)
+
+    body = [s_ for s_ in target.body if not (isinstance(s_, ast.Expr) and isinstance(s_.value, ast.Constant))]
+    return ("(* GENERATED on every run by py2coq from src/cobald/daemon/runners/guard.py -- do not edit *)\n"
+            "From Coq Require Import List.\nImport ListNotations.\nFrom Cobald Require Import kit.GuardIR.\n\n"
+            "Definition exclusive_call_ir : list gstmt :=\n  %s.\n" % block(body))
+
+
+UNITS = {"Gen_standardiser.v": gen_standardiser, "Gen_controllers.v": gen_controllers, "Gen_guard.v": gen_guard}
 
 
 def regen(repo, gendir, names=None):
